@@ -46,8 +46,10 @@ def run(res, tier, seed, replay):
         inputs += [open(f, "rb").read() for f in files]
         inputs += S.gen_prefixes(rng, files, 6 if quick else 60)
         inputs += S.gen_mut(rng, files, 1500 if quick else 40000)
+        inputs += S.gen_directed()
         # corpus of earlier failures first
-        inputs = [b"GET /a /*/", b"GET /a /*/ x */\n", b"Description\n(see) hello\nGET /x\n  200 any\n", b"("] + inputs
+        inputs = [b"GET /a /*/", b"GET /a /*/ x */\n", b"Description\n(see) hello\nGET /x\n  200 any\n", b"(",
+                  b"GET /a\n200 regex\n/ab\\"] + inputs
     bad_spot = None
     if not pr.proof_ok:
         fb = C.run_lines("modelrun", None, ["findbad"])[0]
